@@ -244,6 +244,15 @@ def gen_case(rng, base, path=None):
             case['argv'] = optlib.render(case['asgs'], case['sep'], case['pos'])
         elif not case['pos_arg']:
             return gen_case(rng, base, path)      # malformed / garbage streams: only with pos_arg (any leftover is a value)
+        if rng.random() < 0.25 and not case['malformed']:
+            # API: doit.api.run_tasks(loader, {'t': {...}}) -- no command line; values typed or text, pos_arg value as given
+            case['api'] = True
+            case['task_opts'] = optlib.gen_sources(rng, gen_opts, good_p=0.93, p_ini=0.6, extra_keys=False)[1]
+            case['asgs'], case['abbrev'], case['sep'] = [], False, True
+            case['api_pos_given'] = case['pos_arg'] and rng.random() < 0.8
+            case['pos'] = ([rng.choice(optlib.POSITIONALS + ['k=v', '-x']) for _ in range(rng.randint(0, 3))]
+                           if case['api_pos_given'] else [])
+            case['argv'] = ['--'] + case['pos']       # the model's view: nothing to parse, positionals as they are
     if path == 'creator':
         # '' as an argument crashes loader.load_tasks (term[0]) before any option parsing (the creator path calls it directly)
         if any(a == '' for a in case['argv']):
@@ -281,8 +290,10 @@ def model_request(case):
     req = {'model': 'opt', 'spec': case['spec'], 'env': case['env'], 'ini': case['ini'], 'glob': case['glob'],
            'dodo': case['dodo'], 'argv': case['argv']}
     add_layers(req, case)
-    if case['path'] in VIA_DOITMAIN:
+    if case['path'] in VIA_DOITMAIN and not case.get('api'):
         req['strip'] = True
+    if case.get('api'):
+        req['ini'] = case['task_opts']      # task_opts[t] replaces the per-task section as t.cfg_values
     req['op'] = 'parse' if case['path'] in ('parse', 'realcmd') else 'pipeline'
     if case['path'] == 'premain':
         req.update(op='prepipeline', lspec=case['lspec'], pre=case['pre'])
@@ -301,6 +312,9 @@ def aux_requests(case):
 
 
 def spec_request(case):
+    if case.get('api'):
+        return {'model': 'opt', 'op': 'spec', 'spec': case['spec'], 'env': case['env'], 'ini': case['task_opts'],
+                'glob': [], 'dodo': [], 'asgs': [], 'sep': True, 'pos': case['pos']}
     return add_layers({'model': 'opt', 'op': 'spec', 'spec': case['spec'], 'env': case['env'], 'ini': case['ini'],
             'glob': case['glob'], 'dodo': case['dodo'], 'asgs': case['asgs'] or [], 'sep': case['sep'],
             # `name=value` positionals are command-line variables for DoitMain (doit.get_var), not positionals
@@ -416,6 +430,8 @@ def judge(case, impl, model, spec):
     if path in ('parse', 'realcmd') and 'defaults0' in impl and not (impl['defaults0'] == impl['defaults'] == impl['defaults2']):
         viol.append(('pure', 'parse changed option defaults: %s -> %s -> %s'
                      % (impl['defaults0'], impl['defaults'], impl['defaults2'])))
+    if impl.get('task_opts_mutated'):
+        viol.append(('pure', 'doit.api.run_tasks modified the task_opts dict of its caller: %s' % canon(impl['task_opts_mutated'])[:300]))
     if impl.get('extra_config_mutated'):
         m = impl['extra_config_mutated']
         viol.append(('pure', 'DoitMain modified the extra_config dict of its caller: %s -> %s'
@@ -451,7 +467,7 @@ def judge(case, impl, model, spec):
                          % (case['malformed'], canon(r1)[:300])))
     # ---- (P) exact values / positional / precedence against the specification
     if spec is not None and not case.get('malformed') and not case.get('abbrev') and wf and spec['hyp_ok']:
-        if spec['argv'] != [a for a in case['argv'] if not (path in VIA_DOITMAIN and is_var_word(a)
+        if spec['argv'] != [a for a in case['argv'] if not (path in VIA_DOITMAIN and not case.get('api') and is_var_word(a)
                                                             and a in case['pos'])]:
             raise RuntimeError('harness render differs from the model render: %s vs %s' % (spec['argv'], case['argv']))
         exp = spec['expect']
@@ -705,11 +721,14 @@ def account(st, case, impl, model, spec):
                [set(e[0] for e in fs[k]['ini'] + fs[k]['glob']) for k in ('toml', 'cfg') if fs.get(k) is not None]
         if len(keys) > 1:
             st.count('mixed-config:key-in-several-layers=%s' % any(a & b for i, a in enumerate(keys) for b in keys[i + 1:]))
-    if case['path'] in VIA_DOITMAIN:
+    if case['path'] in VIA_DOITMAIN and not case.get('api'):
         st.count('process_args:var-word-positional=%s,detached-value-var-word=%s,empty-word=%s'
                  % (any(is_var_word(p_) for p_ in case['pos']),
                     any(a[0] in ('sDet', 'lDet') and is_var_word(a[-1]) for a in (case['asgs'] or [])),
                     '' in case['argv']))
+    if case.get('api'):
+        st.count('api.run_tasks:pos_arg=%s,pos_given=%s,task_opts=%d,section-too=%s'
+                 % (bool(case.get('pos_arg')), bool(case.get('api_pos_given')), min(3, len(case['task_opts'])), bool(case['ini'])))
     if case['path'] == 'runtask':
         st.count('runtask:pos_arg=%s,section=%s,args=%s' % (bool(case.get('pos_arg')), bool(case['ini']), bool(case['argv'])))
     if case['path'] == 'realcmd':
@@ -886,6 +905,9 @@ def replay(ctx, data):
     print('path    :', c['path'])
     print('options :', json.dumps(c['spec'][c['n_base']:]))
     print('env     :', c['env'], ' config section:', c['ini'], ' GLOBAL:', c['glob'], ' DOIT_CONFIG:', c['dodo'])
+    if c.get('api'):
+        print('API     : doit.api.run_tasks(ModuleTaskLoader(ns), {"t": %s%s}) twice with the same dict; the argv below is only '
+              'the model\'s view' % (json.dumps(c['task_opts']), (' + posv=%s' % c['pos']) if c.get('api_pos_given') else ''))
     if c['path'] == 'runtask':
         print('task t  : pos_arg=%s, per-task config section present: %s (%s); command line: doit t %s'
               % (bool(c.get('pos_arg')), bool(c['ini'] or c.get('cfg_not_none')), c.get('ini_mode'), ' '.join(c['argv'])))
